@@ -21,7 +21,8 @@ inductive Err where
   | FullRangeOnlyPool | InvalidTradeEnableTimestamp | InvalidIntermediaryMint
   | DuplicateTwoHopPool | IntermediateTokenAmountMismatch | SqrtPriceOutOfBoundsLimit
   | UnsupportedTokenMint | OperationNotAllowedOnLockedPosition | PositionAlreadyLocked
-  | TokenMinSubceededThreshold | Panic | Other
+  | TokenMinSubceededThreshold | InsufficientFunds | NoSuchPosition | PositionExists | NoArrays
+  | InvalidTokenMintOrder | Panic | Other
   deriving DecidableEq, Repr, Inhabited
 
 abbrev R := Except Err
